@@ -68,13 +68,13 @@ def h_remove(n: int, k: int, s1: int, r1: int, s2: int, r2: int, t2: bool, sel: 
     return True
 
 
-def h_remove3(n: int, s1: int, r1: int, s2: int, r2: int, s3: int, r3: int, sel: int, rr: int, cls: int):
+def h_remove3(n: int, s1: int, r1: int, s2: int, r2: int, s3: int, r3: int, sel: int, rr: int, cls: int, t2: bool = True):
     """Three builder steps over the conflicting pair (equal-valued instances included); the removal range is canonical."""
     s = AnsiString(TEXT[:n])
     from ref.view import b1_step
     if b1_step(s, n, s1, r1, True, SIG2) is None:
         return None
-    if b1_step(s, n, s2, r2, True, SIG2) is None:
+    if b1_step(s, n, s2, r2, bool(t2), SIG3 if not t2 else SIG2) is None:
         return None
     if b1_step(s, n, s3, r3, True, SIG2) is None:
         return None
@@ -151,6 +151,8 @@ def obligations(tier):
     for s1 in range(2):
         obs.append(Ob('remove3/ansistr/n3/s%d' % s1, h_remove3, dict(n=3, s1=s1, r1=2, cls=1), need=('removed3',), budget=900,
                       bounds='n=3, 3 apply steps over (red, blue), AnsiStr.remove_formatting, canonical ranges, 4 selections', kinds=KINDS))
+        obs.append(Ob('remove3/nontop/n2/s%d' % s1, h_remove3, dict(n=2, s1=s1, r1=1, cls=0, t2=False), need=('removed3',), budget=900,
+                      bounds='n=2, 3 apply steps (second one not topmost, over red/blue/bold), canonical removal ranges', kinds=KINDS))
         for r1 in (2, 4, 5) if tier == 'quick' else range(6):
             obs.append(Ob('remove3/n3/s%d/r%d' % (s1, r1), h_remove3, dict(n=3, s1=s1, r1=r1, cls=0), need=('removed3', 'equal-instances'), budget=900,
                           bounds='n=3, 3 apply steps over (red, blue) incl. equal-valued instances, canonical removal ranges, selections None/red/blue/[red,bold], AnsiString and AnsiStr', kinds=KINDS))
